@@ -12,9 +12,13 @@ if [ -n "$(git -C /repo status --porcelain)" ]; then echo "/repo working tree is
 git -C /repo apply $D/patch.diff || { echo "patch does not apply"; exit 2; }
 mkdir -p .cache/seeded
 for p in $PROPS; do
+  # the evidence of the unchanged tree must survive: a run on a mutated tree must never be committed as evidence
+  [ -f evidence/$p.json ] && cp evidence/$p.json .cache/seeded/evidence.$p.json.keep
   VERIF_SEED=${VERIF_SEED:-1} timeout 3000 ./check $p --tier quick > .cache/seeded/$ID.$p.log 2>&1
   rc=$?
   echo "== $ID / $p: exit $rc"
   grep -E '^(VIOLATION|KNOWN-FINDING|\[C[0-9]+\] )' .cache/seeded/$ID.$p.log | cut -c1-300
+  cp evidence/$p.json .cache/seeded/$ID.$p.evidence.json 2>/dev/null
+  [ -f .cache/seeded/evidence.$p.json.keep ] && mv .cache/seeded/evidence.$p.json.keep evidence/$p.json
 done
 git -C /repo checkout -- . && git -C /repo status --short
